@@ -377,6 +377,22 @@ func scenario(t *testing.T, run *vk.Run, sig string, d1, d2 time.Duration, neste
 		}
 		time.Sleep(2 * time.Second)
 		synctest.Wait()
+		// the bus is idle again: new asynchronous work, then another Shutdown, which must wait for it
+		closesBefore := int32(0)
+		if cs != nil {
+			closesBefore = cs.closes.Load()
+		}
+		t1 := time.Now()
+		ebu.Publish(bus, sdEvent{2})
+		err3 := bus.Shutdown(context.Background())
+		if running.Load() != 0 || time.Since(t1) != total {
+			run.Violation("shutdown:again-returned-with-work-running", fmt.Sprintf("a later Shutdown (after the bus had been idle) returned %v at virtual t=%v with %d handlers still running; the new asynchronous work ends at %v (%s)", err3, time.Since(t1), running.Load(), total, sig), witness)
+		}
+		if cs != nil && cs.closes.Load() != closesBefore+1 {
+			run.Violation("shutdown:again-close-count", fmt.Sprintf("a later successful Shutdown called Close %d times (%s)", cs.closes.Load()-closesBefore, sig), witness)
+		}
+		time.Sleep(2 * time.Second)
+		synctest.Wait()
 		run.Case(sig, nontrivial)
 		if run.WantSample() && d1 > 0 && dl > 0 {
 			run.Sample(witness)
@@ -385,3 +401,60 @@ func scenario(t *testing.T, run *vk.Run, sig string, d1, d2 time.Duration, neste
 }
 
 var _ = evt.NumPlain
+
+// TestC06WaitStorm: several goroutines loop on Wait while a publisher alternates a quick and a slow
+// asynchronous publish and waits: the count of in-flight handlers crosses zero again and again
+// under contention, and every Wait return is judged by the closure rule.
+func TestC06WaitStorm(t *testing.T) {
+	run := vk.New("C06", "wait-storm")
+	defer run.Finish()
+	all := evt.Drivers()
+	n := run.Scale(60, 1500)
+	procs := []int{4, 16, 2, 8}
+	defer runtime.GOMAXPROCS(runtime.GOMAXPROCS(0))
+	for i := 0; i < n; i++ {
+		rng := run.Rand(uint64(i))
+		runtime.GOMAXPROCS(procs[i%len(procs)])
+		var drivers []evt.Driver
+		for _, j := range rng.Perm(len(all))[:2] {
+			drivers = append(drivers, all[j])
+		}
+		w := conc.NewWorld(drivers, rng.Uint64(), true)
+		w.NoisePct = 0
+		w.Subscribe(90, &conc.Reg{T: 0, Class: 0, Async: true})
+		slowFor := time.Duration(50+rng.IntN(300)) * time.Microsecond
+		w.Subscribe(90, &conc.Reg{T: 1, Class: 0, Async: true, Body: func(*conc.World, *conc.Reg, context.Context, uint64) { time.Sleep(slowFor) }})
+		stop := make(chan struct{})
+		var wg sync.WaitGroup
+		for g := 1; g <= 3+rng.IntN(4); g++ {
+			wg.Add(1)
+			go func(g int) {
+				defer wg.Done()
+				for k := 0; k < 120; k++ {
+					select {
+					case <-stop:
+						return
+					default:
+						w.Wait(g)
+						runtime.Gosched()
+					}
+				}
+			}(g)
+		}
+		rounds := 15 + rng.IntN(25)
+		for r := 0; r < rounds; r++ {
+			w.Publish(0, 0, nil)
+			w.Publish(0, 1, nil)
+			w.Wait(0)
+		}
+		close(stop)
+		wg.Wait()
+		w.Bus.Wait()
+		sig, nontriv := checkWait(run, w, i, procs[i%len(procs)])
+		run.Case(fmt.Sprintf("storm p%d r%d %s", procs[i%len(procs)], rounds/20, sig), nontriv)
+		run.Count("history_events", int64(len(w.Log)))
+		if i == 0 {
+			run.Sample(map[string]any{"rounds": rounds, "history_len": len(w.Log)})
+		}
+	}
+}
